@@ -115,7 +115,8 @@ def strategy(tier):
             if all(isinstance(v, float) and math.isnan(v) for v in cols[c]):
                 cols[c][0] = 1.0  # an all-NaN column has no quantiles to derive a binning from
         cuts = sorted(set(draw(st.lists(st.integers(1, max(1, n - 1)), max_size=4)))) if n > 1 else []
-        return {"cols": cols, "features": [":".join(f) for f in feats], "binning": binning, "bin_specs": specs, "time_axis": "t1" if use_time else "", "cuts": cuts}
+        return {"cols": cols, "features": [":".join(f) for f in feats], "binning": binning, "bin_specs": specs, "time_axis": "t1" if use_time else "", "cuts": cuts,
+                "index": draw(st.sampled_from(("default", "default", "offset", "reversed", "strings"))), "chunk_copy": draw(st.booleans())}
 
     return cases()
 
@@ -230,6 +231,15 @@ def check(case):  # noqa: PLR0915
     cols = case["cols"]
     n = len(cols["f1"])
     df = frame(cols)
+    # row labels are not data: the whole frame may carry any index, and chunks are taken by position (df.iloc[a:b]),
+    # so they keep the labels of their rows (a non-default index)
+    how = case.get("index", "default")
+    if how == "offset":
+        df.index = range(100, 100 + n)
+    elif how == "reversed":
+        df.index = range(n - 1, -1, -1)
+    elif how == "strings":
+        df.index = [f"r{i}" for i in range(n)]
     before = df.copy(deep=True)
     kw = {"features": list(case["features"]), "binning": case["binning"], "bin_specs": {k: (list(v) if isinstance(v, list) else dict(v)) for k, v in case["bin_specs"].items()}}
     if case["time_axis"]:
@@ -277,7 +287,10 @@ def check(case):  # noqa: PLR0915
     chunks = [(a, b) for a, b in zip(bounds, bounds[1:]) if b > a]
     total = None
     for a, b in chunks:
-        part = quiet(make_histograms, frame(cols, a, b), features=features, bin_specs=bin_specs, var_dtype=var_dtype, time_axis=time_axis if time_axis else "", binning=case["binning"])
+        piece = df.iloc[a:b]
+        if case.get("chunk_copy"):
+            piece = piece.copy()
+        part = quiet(make_histograms, piece, features=features, bin_specs=bin_specs, var_dtype=var_dtype, time_axis=time_axis if time_axis else "", binning=case["binning"])
         require(sorted(part) == sorted(hists), "chunk-features", f"chunk {a}:{b} produced features {sorted(part)}, whole frame {sorted(hists)}")
         total = part if total is None else {k: total[k] + part[k] for k in total}
     for name, h in hists.items():
